@@ -640,6 +640,43 @@ func stageLifecycleRules(c *core.Ctx, s *Stage, o lifecycleOpts) {
 		}
 	}
 
+	// ---- the stage function itself leaves its inputs alone --------------------------
+	// Elements are taken from an input by the goroutine whose element loop hands them on. A receive in the stage
+	// function itself (a probe "is this input already closed?", however non-blocking) takes an element that no loop
+	// will ever see.
+	{
+		if c.Rules["ctor-leaves-inputs"] == nil {
+			c.Doc("ctor-leaves-inputs", 1, "the stage function performs no receive on its input channels: every element is received by the goroutine that processes it")
+		}
+		bad := false
+		for _, p := range s.Outer.AllPaths() {
+			for i := range p.Steps {
+				st := &p.Steps[i]
+				switch {
+				case st.Kind == ir.KRecv && len(st.A) > 0 && isInputChan(st.A[0]):
+					bad = true
+					c.Fail("ctor-leaves-inputs", s.Name+"#ctor", st.Pos(), "the stage function receives from its input %s before any goroutine runs: an element a sender had ready is taken and dropped", short(st.A[0]))
+				case st.Kind == ir.KSelect:
+					for _, a := range st.Arms {
+						if !a.Send && isInputChan(a.Chan) && !isDoneOfCtx(a.Chan) {
+							bad = true
+							c.Fail("ctor-leaves-inputs", s.Name+"#ctor", st.Pos(), "the stage function has a select arm receiving from its input %s: an element a sender had ready is taken and dropped", short(a.Chan))
+						}
+					}
+				}
+				if bad {
+					break
+				}
+			}
+			if bad {
+				break
+			}
+		}
+		if !bad {
+			c.Ok("ctor-leaves-inputs", s.Name+"#ctor", s.Fn.Pos(), "")
+		}
+	}
+
 	if o.only == "closing" {
 		if o.catchExit {
 			if c.Rules["catch-false-exits"] == nil {
